@@ -184,7 +184,7 @@ pub fn run_c07(tier: &str) -> Report {
 
 pub fn run_c20(tier: &str) -> Report {
     let mut rep = Report::new("model_checking");
-    let rmax: i32 = if tier == "quick" { 6 } else { 8 };
+    let rmax: i32 = if tier == "quick" { 7 } else { 10 };
     let transitions = AtomicU64::new(0);
     // enumerate through the real children function
     let mut levels: Vec<Vec<u64>> = Vec::new(); // index = res (0..)
